@@ -473,6 +473,20 @@ func derefType(t types.Type) types.Type {
 }
 
 func (e *Env) sel(x *Expr) TV {
+	// pkg.Name: an object of an imported (or any loaded) package
+	if b := x.Args[0]; b.Op == "id" {
+		if _, ok := e.vars[b.Name]; !ok {
+			if _, ok := e.lets[b.Name]; !ok {
+				if _, isVar := e.ssaVarMaybe(b.Name); !isVar {
+					if p := e.x.eng.findPkgFrom(e.pkg, b.Name); p != nil {
+						if o := p.Scope().Lookup(x.Name); o != nil {
+							return e.pkgObj(o)
+						}
+					}
+				}
+			}
+		}
+	}
 	base := e.eval(x.Args[0])
 	name := x.Name
 	// ghost field
@@ -788,7 +802,14 @@ func (e *Env) specFn(f *SpecFn, x *Expr) TV {
 		args = append(args, ls[0])
 	}
 	rs, rt := specSort(f.Ret)
-	return TV{Sc{reg.uf("sf"+mangle(f.Name)[1:], rs, args...)}, rt}
+	t := reg.uf("sf"+mangle(f.Name)[1:], rs, args...)
+	if strings.HasPrefix(f.Ret, "*") {
+		if gt := e.x.eng.typeByName(f.Ret); gt != nil {
+			return TV{PtrV{ObjAddr{t, gt.Underlying().(*types.Pointer).Elem()}}, gt}
+		}
+		sfail("spec function %s: unknown result type %s", f.Name, f.Ret)
+	}
+	return TV{Sc{t}, rt}
 }
 
 // lockKey names the mutex denoted by an expression of the form x.mutexField.
@@ -798,4 +819,11 @@ func (e *Env) lockKey(x *Expr) string {
 	}
 	base := e.eval(x.Args[0])
 	return e.refOf(base).S + "." + x.Name
+}
+
+func (e *Env) ssaVarMaybe(name string) (TV, bool) {
+	if e.frame == nil {
+		return TV{}, false
+	}
+	return e.ssaVar(name)
 }
